@@ -45,6 +45,7 @@ type FakeCam struct {
 	socks  []net.Conn
 	open   int64
 	stop   int32
+	hold   int32 // 1: PLAYING faults are postponed (packets keep flowing) until ReleaseFault
 	wg     sync.WaitGroup
 }
 
@@ -58,6 +59,11 @@ func NewFakeCam() *FakeCam {
 	go f.acceptLoop()
 	return f
 }
+
+// HoldFault postpones PLAYING faults: the camera keeps streaming past Packets until ReleaseFault is called, so that
+// "the camera goes away during play" is sequenced after "the requester is receiving" by events, not by time.
+func (f *FakeCam) HoldFault()    { atomic.StoreInt32(&f.hold, 1) }
+func (f *FakeCam) ReleaseFault() { atomic.StoreInt32(&f.hold, 0) }
 
 // SetScript installs the behaviour for subsequent connections and clears the records.
 func (f *FakeCam) SetScript(s CamScript) {
@@ -309,7 +315,7 @@ func (f *FakeCam) serve(c net.Conn, rec *CamConn, sc CamScript) {
 				closed()
 			}()
 			for i := 0; atomic.LoadInt32(&f.stop) == 0; i++ {
-				if sc.FaultStep == "PLAYING" && i >= sc.Packets {
+				if sc.FaultStep == "PLAYING" && i >= sc.Packets && atomic.LoadInt32(&f.hold) == 0 {
 					switch sc.Fault {
 					case "silence":
 						for atomic.LoadInt32(&f.stop) == 0 {
